@@ -1666,10 +1666,11 @@ impl<'a, SE: extensions::ShellExtensions> WordExpander<'a, SE> {
                 if prefix.is_empty() {
                     Ok(Expansion::from(String::new()))
                 } else {
+                    // Only variables that are set are listed.
                     let matching_names = self
                         .shell
                         .env()
-                        .iter()
+                        .iter_set()
                         .filter_map(|(name, _)| {
                             if name.starts_with(prefix.as_str()) {
                                 Some(name.to_owned())
